@@ -4,6 +4,7 @@ import (
 	"fmt"
 	"runtime"
 	"sync"
+	"sync/atomic"
 	"testing"
 	"time"
 
@@ -24,11 +25,111 @@ type Case struct {
 	Yield []bool       `json:"yield"` // runtime.Gosched before the call
 	G     int          `json:"goroutines"`
 	Procs int          `json:"gomaxprocs"`
+	// ClockRace, when set, runs first: on a stopped timeout clock one catastrophic match with a long
+	// timeout and several quick matches with short timeouts are released together by a spin barrier.
+	ClockRace *ClockRace `json:"clock_race,omitempty"`
+}
+
+type ClockRace struct {
+	LongMs   int   `json:"long_ms"`
+	ShortsMs []int `json:"shorts_ms"`
+	Bursts   int   `json:"bursts"`         // cheap bursts: quick matches only, clock-end invariant checked
+	Real     bool  `json:"real,omitempty"` // one burst whose long-timeout match is catastrophic and must time out
+}
+
+// clockBurst stops the clock and releases one match with a long timeout and several with short timeouts
+// through a spin barrier. long is the input of the long-timeout match.
+func clockBurst(cr *ClockRace, long string) (msg string) {
+	lre := regexp2.MustCompile(`(a+)+$`)
+	lre.MatchTimeout = time.Duration(cr.LongMs) * time.Millisecond
+	shorts := make([]*regexp2.Regexp, len(cr.ShortsMs))
+	for i, ms := range cr.ShortsMs {
+		shorts[i] = regexp2.MustCompile(`a+`)
+		shorts[i].MatchTimeout = time.Duration(ms) * time.Millisecond
+	}
+	regexp2.StopTimeoutClock()
+	var gate atomic.Bool
+	var ready atomic.Int32
+	type res struct {
+		err error
+		el  time.Duration
+	}
+	longDone := make(chan res, 1)
+	shortErr := make([]error, len(shorts))
+	var wg sync.WaitGroup
+	go func() {
+		ready.Add(1)
+		for !gate.Load() {
+		}
+		st := time.Now()
+		_, err := lre.MatchString(long)
+		longDone <- res{err, time.Since(st)}
+	}()
+	for i := range shorts {
+		wg.Add(1)
+		go func(i int) {
+			defer wg.Done()
+			ready.Add(1)
+			for !gate.Load() {
+			}
+			_, shortErr[i] = shorts[i].MatchString("xxaaa")
+		}(i)
+	}
+	for int(ready.Load()) < len(shorts)+1 {
+		runtime.Gosched()
+	}
+	t0 := time.Now()
+	gate.Store(true)
+	wg.Wait()
+	if len(long) <= 20 {
+		r := <-longDone
+		if r.err != nil {
+			return fmt.Sprintf("clock race: quick match with a %d ms timeout returned %v after %v", cr.LongMs, r.err, r.el)
+		}
+		// every deadline that was handed out must be covered by the clock: a clock that is set to stop before
+		// t0 + long would leave a long-running match with that timeout without its timeout
+		if end := regexp2.VerifClockEnd(); !end.IsZero() && end.Before(t0.Add(time.Duration(cr.LongMs)*time.Millisecond-20*time.Millisecond)) {
+			return fmt.Sprintf("clock race: after timed matches with timeouts %d ms and %v ms started together on a stopped clock, the clock is set to stop %v after their start, before the %d ms deadline", cr.LongMs, cr.ShortsMs, end.Sub(t0), cr.LongMs)
+		}
+	} else {
+		select {
+		case r := <-longDone:
+			if r.err == nil || !calls.IsTimeoutish("error:"+r.err.Error()) {
+				return fmt.Sprintf("clock race: catastrophic match with a %d ms timeout returned err=%v after %v", cr.LongMs, r.err, r.el)
+			}
+			if r.el < time.Duration(cr.LongMs)*time.Millisecond-50*time.Millisecond {
+				return fmt.Sprintf("clock race: the %d ms timeout fired after %v", cr.LongMs, r.el)
+			}
+		case <-time.After(time.Duration(cr.LongMs)*time.Millisecond + 4*time.Second):
+			return fmt.Sprintf("clock race: catastrophic match with a %d ms timeout is still running %d ms + 4 s after its start, next to quick matches with timeouts %v ms (the timeout clock stopped while its deadline was pending)", cr.LongMs, cr.LongMs, cr.ShortsMs)
+		}
+	}
+	for i, err := range shortErr {
+		// a quick match may legitimately be descheduled past a few-ms deadline under load: tolerated like the
+		// other timeouts of this check unless it is not a timeout at all
+		if err != nil && !calls.IsTimeoutish("error:"+err.Error()) {
+			return fmt.Sprintf("clock race: quick match %d returned %v", i, err)
+		}
+	}
+	return ""
+}
+
+// clockRace checks that concurrent deadlines of different lengths do not disturb each other.
+func clockRace(cr *ClockRace) string {
+	for b := 0; b < cr.Bursts; b++ {
+		if msg := clockBurst(cr, "xxaaa"); msg != "" {
+			return fmt.Sprintf("%s (burst %d)", msg, b)
+		}
+	}
+	if cr.Real {
+		return clockBurst(cr, "aaaaaaaaaaaaaaaaaaaaaaaaaaaaaaaaaaaaaaaaaaaa!")
+	}
+	return ""
 }
 
 func TestMain(m *testing.M) {
 	h.Setup("C11",
-		"generated workloads: 3-6 shared Regexps from a pool of 9 (bool-only program, balancing groups, stack limit 64, 30 ms timeout on a catastrophic pattern, RightToLeft, replacement cache of 2, ...) and 150-600 calls over 13 entry points (bool, find, iterate, find-all, Replace with more distinct replacements than the cache holds, ReplaceFunc, Split, adapter, timed, stack-limited) with inputs crossing the pooled-buffer size classes, assigned to G in {2,4,8,32} goroutines under GOMAXPROCS in {1,2,4,16} with generated runtime.Gosched points; expected results are computed sequentially on fresh Regexps first; every concurrent result must equal its expected value; the binary is built with -race and any race report fails the run; one evaluation = one call executed concurrently; non-trivial = a workload in which at least two goroutines used the same Regexp and at least one call of each family (bool, find, find-all, replace, split, adapter) ran; distinct = hash of the workload",
+		"generated workloads: 3-6 shared Regexps from a pool of 10 (bool-only program, balancing groups, stack limit 64, 30 ms timeout on a catastrophic pattern, RightToLeft, replacement cache of 2, ...) and 150-600 calls over 13 entry points (bool, find, iterate, find-all, Replace with more distinct replacements than the cache holds, ReplaceFunc, Split, adapter, timed, stack-limited) with inputs crossing the pooled-buffer size classes, assigned to G in {2,4,8,32} goroutines under GOMAXPROCS in {1,2,4,16} with generated runtime.Gosched points; 1 workload in 2 starts with 20-60 clock-race bursts (timeout clock stopped, one match with a 1.2-1.5 s timeout and 2-6 with 5-20 ms timeouts released by a spin barrier; afterwards the clock must be set to run past the long deadline - read through a verif hook -; in 1 of 4 of these workloads the long match is catastrophic and must end with a timeout error, neither early nor never); expected results are computed sequentially on fresh Regexps first; every concurrent result must equal its expected value; the binary is built with -race and any race report fails the run; one evaluation = one call executed concurrently; non-trivial = a workload in which at least two goroutines used the same Regexp and at least one call of each family (bool, find, find-all, replace, split, adapter) ran; distinct = hash of the workload",
 		map[string]float64{"shared-by-2+": 0.9, "all-families": 0.8},
 		"interleavings are sampled by the Go scheduler under stress, not enumerated; the race detector only reports races on executions that happen",
 		"a concurrent timeout on the 30 ms-timeout Regexp where the sequential run had none is tolerated and counted (timeouts are wall-clock and descheduling is not the engine's fault)")
@@ -37,13 +138,21 @@ func TestMain(m *testing.M) {
 
 func gen1(t *rapid.T) Case {
 	var c Case
-	perm := rapid.Permutation([]int{0, 1, 2, 3, 4, 5, 6, 7, 8}).Draw(t, "specs")
+	perm := rapid.Permutation([]int{0, 1, 2, 3, 4, 5, 6, 7, 8, 9}).Draw(t, "specs")
 	c.Specs = perm[:rapid.IntRange(3, 6).Draw(t, "nspecs")]
 	c.G = rapid.SampledFrom([]int{2, 4, 8, 32}).Draw(t, "G")
 	c.Procs = rapid.SampledFrom([]int{1, 2, 4, 16}).Draw(t, "procs")
 	n := rapid.IntRange(150, 600).Draw(t, "ncalls")
 	if h.Thorough() {
 		n = rapid.IntRange(200, 2000).Draw(t, "ncallsT")
+	}
+	if rapid.IntRange(0, 1).Draw(t, "clockrace") == 0 {
+		cr := &ClockRace{LongMs: rapid.SampledFrom([]int{1200, 1500}).Draw(t, "racelong"), Bursts: rapid.IntRange(20, 60).Draw(t, "racebursts"), Real: rapid.IntRange(0, 3).Draw(t, "racereal") == 0}
+		k := rapid.IntRange(2, 6).Draw(t, "raceshorts")
+		for j := 0; j < k; j++ {
+			cr.ShortsMs = append(cr.ShortsMs, rapid.SampledFrom([]int{5, 10, 20}).Draw(t, "raceshort"))
+		}
+		c.ClockRace = cr
 	}
 	catastrophic := 0
 	for i := 0; i < n; i++ {
@@ -77,6 +186,11 @@ func gen1(t *rapid.T) Case {
 
 // run executes the workload; it returns the first mismatch and the number of tolerated timeouts.
 func run(c Case) (string, int) {
+	if c.ClockRace != nil {
+		if msg := clockRace(c.ClockRace); msg != "" {
+			return msg, 0
+		}
+	}
 	// expected: sequential, fresh Regexp per call
 	want := make([]string, len(c.Calls))
 	for i, cl := range c.Calls {
